@@ -334,6 +334,27 @@ def r2_generator_reset(chk):
                        'genCode assigns self.%s only under a condition (`%s`): when it does not hold the value of the '
                        'previous call (another module, another caller) stays in force' % (
                            attr, norm(getattr(nodes[0], '_parent', nodes[0]))[:70].split('\n')[0]))
+            # the same for members of a settings dictionary: self.genRules['text'] = ...
+            items = {}
+            for attr, kind, node in writes_in(fn):
+                if kind == 'item' and isinstance(node, ast.Assign) and (line is None or node.lineno < line):
+                    for t in node.targets:
+                        if isinstance(t, ast.Subscript) and common.is_self_attr(t.value) and isinstance(t.slice, ast.Constant):
+                            items.setdefault(norm(t), []).append(node)
+
+            def item_always(st, key):
+                if isinstance(st, ast.Assign):
+                    return any(norm(t) == key for t in st.targets)
+                if isinstance(st, ast.If):
+                    return bool(st.orelse) and any(item_always(x, key) for x in st.body) and \
+                        any(item_always(x, key) for x in st.orelse)
+                return False
+            for key, nodes in sorted(items.items()):
+                top = [st for st in fn.body if (line is None or st.lineno < line) and item_always(st, key)]
+                total += 1
+                chk.ob('C12.R2', '%s/%s set on every path' % (cname, key), bool(top), where(owner.mod, nodes[0]),
+                       'genCode stores %s only under a condition (`%s`): when it does not hold, the setting of the '
+                       'previous call stays in force' % (key, norm(getattr(nodes[0], '_parent', nodes[0]))[:70].split('\n')[0]))
         # R3 escapes
         esc = set()
         for owner, fn in chain:
